@@ -102,3 +102,42 @@ Theorem C19_l2_fit_commutes_with_rescaling :
   forall n z, predictionL2 base q eps med solve root t0 (scaleX c X) n (qscale c z) = predictionL2 base q eps med solve root t0 X n z.
 Proof. exact l2_fit_commutes_with_rescaling. Qed.
 Print Assumptions C19_l2_fit_commutes_with_rescaling.
+
+(* ---------- ... and INSTANTIATED for the product ('l1') and the Lpq Laplace kernels ---------- *)
+Require Import XV.Real.GradAuto XV.Real.ScaleInvPQ.
+(* Product kernel, exponent q > 0: bandwidth = base * med of the pairwise (sum_d |u_d|^q)^(1/q) distances; Gram matrix / predictor from the closed form; gradients = the model of
+   what jacrev + wrapper return (GradAuto.grad_product, proved to be the derivative in C04); normalised AGOP; arbitrary solver and root.  The only side condition beside positivity
+   of the bandwidth and of the AGOP normaliser at every round of the UNSCALED fit: the eps-mask of every pair of training points is on the same side before and after scaling. *)
+Theorem C19_product_fit_commutes_with_rescaling :
+  forall (base q eps : R), (0 < q)%R -> forall (med : list R -> R),
+  (forall c l, (0 < c)%R -> med (map (Rmult c) l) = (c * med l)%R) ->
+  forall (solve : list (list R) -> list R) (root : list (list R) -> tmat) (c : R) (t0 : tmat) (X : list (list R)), (0 < c)%R ->
+  (forall n, (0 < base * med (pdist_q q (featmatP base q eps med solve root t0 X n) X))%R) ->
+  (forall n, masksP q eps c (featmatP base q eps med solve root t0 X n) X) ->
+  (forall n, (0 < mmaxR (agop_raw (gradsP q eps (featmatP base q eps med solve root t0 X n) (bandwidthP base q eps med solve root t0 X n) X
+                                          (coefsP base q eps med solve root t0 X n))))%R) ->
+  forall n z, predictionP base q eps med solve root t0 (scaleX c X) n (qscale c z) = predictionP base q eps med solve root t0 X n z.
+Proof. exact product_fit_commutes_with_rescaling. Qed.
+Print Assumptions C19_product_fit_commutes_with_rescaling.
+
+Theorem C19_lpq_fit_commutes_with_rescaling :
+  forall (base p q eps : R), (0 < p)%R -> forall (med : list R -> R),
+  (forall c l, (0 < c)%R -> med (map (Rmult c) l) = (c * med l)%R) ->
+  forall (solve : list (list R) -> list R) (root : list (list R) -> tmat) (c : R) (t0 : tmat) (X : list (list R)), (0 < c)%R ->
+  (forall n, (0 < base * med (pdist_p p (featmatLpq base p q eps med solve root t0 X n) X))%R) ->
+  (forall n, masksLpq p eps c (featmatLpq base p q eps med solve root t0 X n) X) ->
+  (forall n, (0 < mmaxR (agop_raw (gradsLpq p q eps (featmatLpq base p q eps med solve root t0 X n) (bandwidthLpq base p q eps med solve root t0 X n) X
+                                          (coefsLpq base p q eps med solve root t0 X n))))%R) ->
+  forall n z, predictionLpq base p q eps med solve root t0 (scaleX c X) n (qscale c z) = predictionLpq base p q eps med solve root t0 X n z.
+Proof. exact lpq_fit_commutes_with_rescaling. Qed.
+Print Assumptions C19_lpq_fit_commutes_with_rescaling.
+
+(* the autodiff gradient models are homogeneous of degree -1 wherever the eps-mask keeps its side (no other condition: zero coordinates and coincident points included) *)
+Theorem C19_product_gradient_is_homogeneous : forall t (L q eps c : R) xs cs z, (0 < c)%R -> (0 < L)%R ->
+  Forall (fun x => let D := sum_abs_pow q (transform t (vsubR z x)) in same_side eps D (Rpower c q * D)%R) xs ->
+  grad_product t (c * L)%R q eps (map (vscaleR c) xs) cs (vscaleR c z) = vscaleR (/ c)%R (grad_product t L q eps xs cs z).
+Proof. exact grad_product_homogeneous. Qed.
+Theorem C19_lpq_gradient_is_homogeneous : forall t (L p q eps c : R) xs cs z, (0 < c)%R -> (0 < L)%R -> (0 < p)%R ->
+  Forall (fun x => let N := normp p (transform t (vsubR z x)) in same_side eps N (c * N)%R) xs ->
+  grad_lpq t (c * L)%R p q eps (map (vscaleR c) xs) cs (vscaleR c z) = vscaleR (/ c)%R (grad_lpq t L p q eps xs cs z).
+Proof. exact grad_lpq_homogeneous. Qed.
